@@ -308,7 +308,11 @@ def r5_missing_transitions(ctx, chk, rule="C09.1"):
     cond, _, exc = raises[0]
     want_c = simp(("cmp", "!=", ("call", "len", (("res", L.id, v),), ()), A("num_states")))
     name = exc[1] if exc[0] == "call" else "?"
-    if cond != want_c:
+    from .C10 import _restored_node_cache
+    if cond != want_c and cond[0] == "and" and want_c in cond[1] and _restored_node_cache(ctx, ctx.func("tad.py::StochasticGame.init_states")) is True:
+        chk.ok(rule, f.where(), "'Missing transitions' is raised iff the number of nodes built != number of states, whenever the nodes are built (nodes kept from an earlier, "
+               "successful build of the same description are handed out again after a complete reset)")
+    elif cond != want_c:
         chk.violation(rule, f.where(), "'Missing transitions' is raised iff `%s`; specification: number of nodes built != number of states" % show(cond),
                       expected=show(want_c), found=show(cond), construct="init_states count guard")
     elif not ctx.prog.exc_is_a(name, "ValueError"):
@@ -434,7 +438,9 @@ def r4_placement(ctx, chk, rule="C09.4"):
             # arguments forwarded in the base constructor's order
             base_params = [p for p in node_init.params if p != "self"]
             passed = [a.id if isinstance(a, ast.Name) else src(a) for a in sup[0].args]
-            if passed == base_params[:len(passed)] and len(passed) == len(base_params):
+            kw_ok = all(k.arg in base_params and isinstance(k.value, ast.Name) and k.value.id == k.arg for k in sup[0].keywords if k.arg)
+            rest_defaulted = all(p_ in node_init.defaults for p_ in base_params[len(passed):] if p_ not in {k.arg for k in sup[0].keywords})
+            if passed == base_params[:len(passed)] and kw_ok and rest_defaulted:
                 chk.ok(rule, ini.where(), "%s.__init__ always calls super().__init__ with its arguments in the base order" % cls)
             else:
                 chk.violation(rule, ini.where(sup[0]), "%s.__init__ forwards (%s) to Node.__init__(%s): arguments are exchanged, validation sees the wrong values" % (cls, ", ".join(passed), ", ".join(base_params)),
@@ -539,6 +545,15 @@ def pre_validation_dereference(ctx, chk, rule, f, tr):
     n = 0
     for call, g in outside:
         for h in ctx.cg.reachable([g]):
+            if g.name != "__init__" and h.name not in ("__init__",):
+                for node in walk_no_nested_defs(h.node):
+                    if isinstance(node, ast.Raise):
+                        # a `raise` of its own in something run_games calls outside the try: whatever the exception class, nothing records it
+                        n += 1
+                        chk.violation(rule, h.where(node), "%s is called by run_games outside the try block and can `%s`: the error of one game leaves run_games instead of being recorded "
+                                      "in that game's entry, and the remaining games are not solved" % (h.short, norm_stmt(node)[:60]),
+                                      expected="errors of a game are raised where the driver catches them (solve())", found=norm_stmt(node)[:80],
+                                      construct="%s raises outside the driver's try" % h.short)
             for node in walk_no_nested_defs(h.node):
                 target = None
                 op = None
@@ -637,6 +652,23 @@ def _element_of_input(h, name):
 def _type_guarded(node, target):
     t = src(target)
     n = node
+    # a guard clause earlier in the same block: `if not isinstance(x, list): continue / return / raise`
+    stmt = node
+    while stmt is not None and not isinstance(stmt, ast.stmt):
+        stmt = getattr(stmt, "parent", None)
+    while stmt is not None:
+        par = getattr(stmt, "parent", None)
+        for fld in ("body", "orelse"):
+            blk = getattr(par, fld, None)
+            if isinstance(blk, list) and stmt in blk:
+                for prev in blk[:blk.index(stmt)]:
+                    if isinstance(prev, ast.If) and not prev.orelse and prev.body and isinstance(prev.body[-1], (ast.Continue, ast.Return, ast.Raise, ast.Break)) \
+                            and isinstance(prev.test, ast.UnaryOp) and isinstance(prev.test.op, ast.Not) and isinstance(prev.test.operand, ast.Call) \
+                            and call_name(prev.test.operand) == "isinstance" and prev.test.operand.args and src(prev.test.operand.args[0]) == t:
+                        return True
+        if isinstance(par, (ast.FunctionDef, ast.Lambda)) or par is None:
+            break
+        stmt = par if isinstance(par, ast.stmt) else None
     while n is not None:
         p = getattr(n, "parent", None)
         if isinstance(p, ast.If) and any(n is s or _contains(s, n) for s in p.body):
